@@ -156,6 +156,16 @@ class GenericQuantity(object):
                 % (self_units, other_units))
         return self_value < other_value
 
+    def __gt__(self, other):
+        (self_value, self_units) = self._unpack_qty(self)
+        (other_value, other_units) = self._unpack_qty(other)
+        if (not is_zero(other_value) and
+                (not other_units or not self.has_units(other_units))):
+            raise UnitsError(
+                'Incompatible units %s vs %s in comparison'
+                % (self_units, other_units))
+        return self_value > other_value
+
     def __ge__(self, other):
         (self_value, self_units) = self._unpack_qty(self)
         (other_value, other_units) = self._unpack_qty(other)
